@@ -16,6 +16,12 @@ CHECKS = {
         "note": "Histories only add an object at an endpoint it does not occupy and never with start > end (documented contract). Intra-point order is compared as a multiset. Both readings of 'next later change' are accepted when a redundant table entry makes them differ.",
         "technique": "property-based testing with Hypothesis: stateful/model-based operation histories against a reference model, invariant after every step",
     },
+    "C02": {
+        "text": "Generated parts (0-several division changes, time-signature changes on and off bar lines and coinciding with division changes, simple/compound/irregular meters, pickups of every length, irregular bars, notated and musical beats with default and user-supplied beats per signature, switching back to notated) are built through the public API; quarter_map, beat_map, both inverse maps and quarter_duration_map are compared at every integer position and change point with exact Fraction arithmetic from the abstract spec (value, monotonicity, scalar/array agreement, inverse, origin at the end of a pickup). Exploration.",
+        "design_ref": "DESIGN.md 4 C02",
+        "note": "First time point, measure, time signature and divisions entry are at position 0 (what importers produce); values before the first signature are not judged; tolerance 1e-9 relative (forward), 1e-6 absolute (inverse). Cases where user-supplied musical beats make 'shorter than a bar' differ between quarters and beats are counted and not judged.",
+        "technique": "property-based testing (Hypothesis) against an exact Fraction reference model of musical time",
+    },
     "C12": {
         "text": "Exhaustive enumeration of every finite conversion domain named by the property (spelling, MIDI, note names, keys, modes, clefs, symbolic durations, tuplets, tempo units, interval classes, table agreement, frequency) against integer/Fraction arithmetic, plus Hypothesis sampling of (ppq, mpq, time) for tick conversion with scalars and arrays of several dtypes. Enumerated parts are complete; sampled part is exploration.",
         "design_ref": "DESIGN.md 4 C12",
